@@ -26,6 +26,12 @@ struct Prog
     int mode = 30;
     int workers = 2;
     bool pool = false;
+    // how the dedicated polling pool is asked for: 0 = --pika:mpi-enable-pool (pika decides; on a single rank it decides against and
+    // polls on the default pool), 1 = mpi::detail::create_pool(rp, "", mode_force_create) from the resource partitioner callback (what
+    // pika itself does on several ranks, and what its pool_creation test does), 2 = a pool the program creates itself and names in
+    // enable_polling(.., name).  With 1 and 2 and a completion mode without the inline-request bit pika::mpi runs its single threaded
+    // (lock free) polling path
+    int pool_kind = 0;
     int polling_size = 8;
     std::vector<Pair> pairs;
     int send_stride = 1;       // sends are issued in a scattered order
@@ -80,6 +86,11 @@ static Case decode(tape_t const& tape)
             p.posters = 1 + static_cast<int>(t.below(static_cast<std::uint32_t>(p.workers)));
         }
         p.second_scope_on_default_pool = p.pool && p.scopes == 2 && t.chance(1, 2);
+        if (p.pool)
+        {
+            p.pool_kind = t.weighted({1, 4, 2});
+            if (p.pool_kind != 0) p.workers = std::max(p.workers, 2);    // the pool takes one processing unit for itself
+        }
         c.progs.push_back(std::move(p));
     }
     return c;
@@ -101,7 +112,7 @@ static std::string describe(tape_t const& tape)
         auto const& p = c.progs[i];
         long big = 0;
         for (auto const& pr : p.pairs) big = std::max(big, sizes[pr.size_idx]);
-        os << (i ? ", " : "") << "{\"mode\": " << p.mode << ", \"method\": \"" << method_name(p.mode) << "\", \"workers\": " << p.workers << ", \"mpi_pool\": " << (p.pool ? "true" : "false")
+        os << (i ? ", " : "") << "{\"mode\": " << p.mode << ", \"method\": \"" << method_name(p.mode) << "\", \"workers\": " << p.workers << ", \"mpi_pool\": \"" << (!p.pool ? "none" : p.pool_kind == 0 ? "--pika:mpi-enable-pool (pika decides)" : p.pool_kind == 1 ? "create_pool(force_create)" : "own pool named in enable_polling") << "\""
            << ", \"polling_size\": " << p.polling_size << ", \"pairs\": " << p.pairs.size() << ", \"largest_message\": " << big << ", \"send_stride\": " << p.send_stride
            << ", \"polling_scopes\": " << p.scopes << ", \"wait_in_flight\": " << (p.wait_in_flight ? "true" : "false") << ", \"burst_posters\": " << (p.burst ? p.posters : 0) << ", \"second_scope_polls_on_default_pool\": " << (p.second_scope_on_default_pool ? "true" : "false") << "}";
     }
@@ -116,6 +127,7 @@ struct PairRt
     std::atomic<int> bad_payload{0};
 };
 
+static bool g_saw_dedicated_pool = false;
 static std::string run_program(Prog const& p, int index, Quiescence& q)
 {
     RtConfig cfg;
@@ -124,10 +136,21 @@ static std::string run_program(Prog const& p, int index, Quiescence& q)
     static ArgvHolder ah;
     ah.s = config_args(cfg);
     ah.s.push_back("--pika:mpi-completion-mode=" + std::to_string(p.mode));
-    if (p.pool) ah.s.push_back("--pika:mpi-enable-pool");
+    if (p.pool && p.pool_kind == 0) ah.s.push_back("--pika:mpi-enable-pool");
     ah.build();
     setenv("PIKA_MPI_POLLING_SIZE", std::to_string(p.polling_size).c_str(), 1);
-    pika::start(nullptr, static_cast<int>(ah.s.size()), ah.p.data());
+    pika::init_params ip;
+    static char const* const own_pool = "verif-comm";
+    if (p.pool && p.pool_kind == 1)
+        ip.rp_callback = [](pika::resource::partitioner& rp, pika::program_options::variables_map const&) { mpi::detail::create_pool(rp, "", mpi::polling_pool_creation_mode::mode_force_create); };
+    if (p.pool && p.pool_kind == 2)
+        ip.rp_callback = [](pika::resource::partitioner& rp, pika::program_options::variables_map const&) {
+            auto mode = pika::threads::scheduler_mode(pika::threads::scheduler_mode::default_mode & ~pika::threads::scheduler_mode::enable_idle_backoff);
+            rp.create_thread_pool(own_pool, pika::resource::scheduling_policy::local_priority_fifo, mode);
+            rp.add_resource(rp.sockets()[0].cores()[0].pus()[0], own_pool);
+        };
+    pika::start(nullptr, static_cast<int>(ah.s.size()), ah.p.data(), ip);
+    if (pika::resource::get_num_thread_pools() > 1) g_saw_dedicated_pool = true;
     std::string where = "program " + std::to_string(index) + " (mode " + std::to_string(p.mode) + " " + method_name(p.mode) + ", " + std::to_string(p.pairs.size()) + " pairs): ";
     std::size_t n = p.pairs.size();
     std::vector<std::unique_ptr<PairRt>> prs;
@@ -180,7 +203,9 @@ static std::string run_program(Prog const& p, int index, Quiescence& q)
         std::size_t lo = static_cast<std::size_t>(sc) * per_scope, hi = std::min(n, lo + per_scope);
         if (lo >= hi) break;
         std::optional<mpi::enable_polling> ep;
-        if (sc == 1 && p.second_scope_on_default_pool) ep.emplace(mpi::no_handler, "default"); else ep.emplace();
+        if (sc == 1 && p.second_scope_on_default_pool) ep.emplace(mpi::no_handler, "default");
+        else if (p.pool && p.pool_kind == 2) ep.emplace(mpi::no_handler, own_pool);
+        else ep.emplace();
         auto post_recv = [&](std::size_t i) {
             PairRt* r = prs[i].get();
             int cnt = static_cast<int>(r->rbuf.size());
@@ -295,8 +320,11 @@ static Outcome run(tape_t const& tape)
         out.tags.push_back(std::string("method:") + method_name(c.progs[i].mode));
         if (c.progs[i].pairs.size() > 32) out.tags.push_back("has:>32_requests_in_flight");
         if (c.progs[i].burst) out.tags.push_back("has:burst_of_requests_from_one_task");
+        if (c.progs[i].pool && c.progs[i].pool_kind != 0) out.tags.push_back(((c.progs[i].mode & 1) == 0) ? "has:dedicated_polling_pool,requests_transferred(single_threaded_polling)" : "has:dedicated_polling_pool,requests_inline");
+        if (c.progs[i].second_scope_on_default_pool && c.progs[i].pool_kind != 0) out.tags.push_back("has:second_polling_scope_moves_to_default_pool");
     }
     MPI_Finalize();
+    if (g_saw_dedicated_pool) out.tags.push_back("saw:runtime_has_a_second_thread_pool_for_mpi");
     out.counters["pairs"] = pairs;
     out.counters["programs"] = static_cast<long long>(c.progs.size());
     out.nontrivial = nt;
